@@ -30,6 +30,14 @@ func resultTypes(sig *types.Signature) (ts []types.Type, names []string) {
 	return
 }
 
+// advanceHW: the callee may have allocated objects.
+func (fr *frame) advanceHW(st *State) {
+	vc := fr.vc()
+	h := vc.freshConst("hw", SInt)
+	vc.fact(fmt.Sprintf("(>= %s %s)", h.S, st.hw))
+	st.hw = h.S
+}
+
 func (fr *frame) freshResults(sig *types.Signature, st *State, label string) []Term {
 	vc := fr.vc()
 	ts, _ := resultTypes(sig)
@@ -127,11 +135,13 @@ func (fr *frame) call(v ssa.Value, c *ssa.CallCommon, st *State, site ssa.Instru
 	}
 	// pure packages: results are uninterpreted functions of the arguments
 	if e.isPureCallee(c, callee) {
+		fr.advanceHW(st)
 		res := fr.pureCall(key, sig, args, argTypes, st, label)
 		fr.setResult(v, res)
 		return
 	}
 	if callee != nil && e.db.NoEffect[key] {
+		fr.advanceHW(st)
 		fr.setResult(v, fr.freshResults(sig, st, label))
 		return
 	}
@@ -306,7 +316,31 @@ func (fr *frame) applyContract(ct *Contract, callee *ssa.Function, sig *types.Si
 		}
 		fr.oblige("pre", "", fmt.Sprintf("%s#%d", anchor, i), st, g, cl.Text, cl.Tags)
 	}
+	// termination measure: calls inside a recursion group must decrease it
+	if root := fr.root(); root.contract != nil && root.contract.Decreases != nil && ct.Decreases != nil &&
+		(ct == root.contract || (ct.RecGroup != "" && ct.RecGroup == root.contract.RecGroup)) {
+		rctx := root.specCtx(root.old, root.old, nil, nil, 0)
+		before, err1 := rctx.tr(root.contract.Decreases.Expr)
+		after, err2 := ctx.tr(ct.Decreases.Expr)
+		if err1 == nil && err2 == nil {
+			goal := fmt.Sprintf("(and (>= %s 0) (< %s %s))", before.S, after.S, before.S)
+			text := ct.Decreases.Text
+			if root.contract.Decreases2 != nil && ct.Decreases2 != nil {
+				b2, e1 := rctx.tr(root.contract.Decreases2.Expr)
+				a2, e2 := ctx.tr(ct.Decreases2.Expr)
+				if e1 == nil && e2 == nil {
+					goal = fmt.Sprintf("(and (>= %s 0) (or (< %s %s) (and (= %s %s) (>= %s 0) (< %s %s))))", before.S, after.S, before.S, after.S, before.S, b2.S, a2.S, b2.S)
+					text += ", " + ct.Decreases2.Text + " (lexicographic)"
+				}
+			}
+			fr.oblige("decreases", "", anchor, st, goal,
+				"recursive call must decrease: "+text, ct.Decreases.Tags)
+		} else {
+			vc.warn("decreases of %s: %v %v", ct.Key, err1, err2)
+		}
+	}
 	pre := st.clone()
+	fr.advanceHW(st)
 	// effects
 	if ct.HasMods || ct.Trusted {
 		for _, m := range ct.Mods {
@@ -488,6 +522,27 @@ func (fr *frame) applyModSpec(m ModSpec, ctx *specCtx, st *State) {
 		if vc.kinds[m.Name] != nil {
 			fr.havocKeys(st, []string{m.Name})
 		}
+	case "mapkey":
+		obj, err := ctx.tr(m.Expr)
+		if err != nil || obj.ty == nil {
+			vc.warn("modifies %s: %v", m.Text, err)
+			return
+		}
+		k, err := ctx.tr(m.Key)
+		if err != nil {
+			vc.warn("modifies %s: %v", m.Text, err)
+			return
+		}
+		mt, ok := obj.ty.Underlying().(*types.Map)
+		if !ok {
+			return
+		}
+		dom, val := vc.keyMap(mt)
+		fr.frameWrite(dom, obj.S, st)
+		db := vc.freshConst("mk.has", SBool)
+		vv := vc.freshConst("mk.val", sortOf(mt.Elem()))
+		vc.set(st, dom, fmt.Sprintf("(store %s %s (store (select %s %s) %s %s))", vc.cur(st, dom), obj.S, vc.cur(st, dom), obj.S, k.S, db.S))
+		vc.set(st, val, fmt.Sprintf("(store %s %s (store (select %s %s) %s %s))", vc.cur(st, val), obj.S, vc.cur(st, val), obj.S, k.S, vv.S))
 	}
 }
 
